@@ -158,6 +158,11 @@ func (a *Aligner) OnCall(abs string, write bool) simapi.Decision {
 	case "crashAfter":
 		a.Injected = simapi.CrashAfter.String()
 		return simapi.CrashAfter
+	case "miss":
+		// not a fault: the informer cache has not seen the object yet (reads only)
+		if !write {
+			return simapi.CacheMiss
+		}
 	}
 	return simapi.Proceed
 }
